@@ -263,8 +263,12 @@ def pp_concrete(prog, text_, maxtok=40):
             return None
         it.models.update({'getc': getc, 'ungetc': ungetc, 'ferror': lambda i2, a, e: 0, 'xmalloc': xmalloc, 'xreallocarray': xrealloc, 'bufget': bufget, 'free': lambda i2, a, e: None,
                           'strtoull': lambda i2, a, e: int(bytes(read_cstr(i2, a[0])).decode(), 0), 'strchr': strchr, 'fclose': lambda i2, a, e: 0,
-                          'error': lambda i2, a, e: (_ for _ in ()).throw(Terminal('error', cmodel.fmt_of(i2, a, 1))),
                           'fatal': lambda i2, a, e: (_ for _ in ()).throw(Terminal('fatal', cmodel.fmt_of(i2, a, 0)))})
+        def error(i2, a, e):
+            loc = a[0]
+            where = (i2.load(loc.obj, loc.path + ('line',)), i2.load(loc.obj, loc.path + ('col',))) if isinstance(loc, Ptr) else None
+            raise Terminal('error', (cmodel.fmt_of(i2, a, 1), where))
+        it.models['error'] = error
         name = Ptr(it.mkstr(list(b'in.c'), 'name'), (0,))
         it.call(prog.require_func('scanfrom', 'scan.c'), [name, Ptr(Obj('FILE', 'heap'), ())])
         it.call(prog.require_func('ppinit'), [])
@@ -306,6 +310,22 @@ def rule_line_positions(chk, prog, tier):
                     w_ = (file or 'in.c', line + dl, col)
                     if g != w_: bad.append('%s at %s, expected %s' % (name, g, w_))
                 r.instance(not bad, key, 'pp.c:directive / scan.c:scansetloc', '; '.join(bad))
+    # diagnostics the scanner itself raises
+    for src, msg, want in (('int a;\nchar *s = "abc\n";\n', 'newline in string literal', (2, 14)), ("int c = 'a\n';\n", 'newline in character constant', (1, 11)),
+                           ('int a;\n\n  @', None, None), ('/* x\n\n', 'EOF in comment', None)):
+        run = pp_concrete(prog, src)
+        key = 'scanner-diagnostic:%r' % src
+        if msg is None or want is None:
+            continue
+        if run.outcome != 'terminal:error' or not isinstance(run.detail, tuple):
+            r.instance(False, key, 'scan.c', 'expected the diagnostic "%s", got %s %s' % (msg, run.outcome, run.detail)); continue
+        fmt, where = run.detail
+        ok = msg in fmt and where == want
+        if msg in fmt and where is not None and where != want and where == (want[0] + 1, 0):
+            r.violation('scanner-diagnostic-class: a diagnostic raised at a newline character is located on the following line, column 0', 'scan.c:nextchar',
+                        '"%s" for %r is reported at line %d column %d; the offending newline ends line %d (column %d)' % (msg, src, where[0], where[1], want[0], want[1]))
+            continue
+        r.instance(ok, key, 'scan.c', '"%s" reported at %s, expected %s' % (fmt, where, want))
     r.exhaustive = False
 
 
